@@ -60,12 +60,14 @@ def gap(prev, nxt, new_featuretype=None, merge_attributes=True, numeric_sort=Fal
 
 
 def gaps(features, **kw):
-    """(gap list in pair order, number of suppressed pairs by reason)"""
+    """(gap list in pair order, number of suppressed pairs by reason); every gap carries under "pair" the positions
+    of its two neighbours in `features` (bookkeeping for the evidence counters, not part of the expectation)"""
     out = []
     suppressed = {"seqid change": 0, "touching": 0, "overlapping": 0}
-    for prev, nxt in zip(features, features[1:]):
+    for i, (prev, nxt) in enumerate(zip(features, features[1:])):
         g = gap(prev, nxt, **kw)
         if g is not None:
+            g["pair"] = [i, i + 1]
             out.append(g)
         elif prev["seqid"] != nxt["seqid"]:
             suppressed["seqid change"] += 1
@@ -76,10 +78,20 @@ def gaps(features, **kw):
     return out, suppressed
 
 
+def start_ordered(exons):
+    return sorted(exons, key=lambda e: e["start"])
+
+
 def introns(exons, **kw):
-    """Gaps between the start-ordered exons of one transcript (starts must be distinct)."""
-    ex = sorted(exons, key=lambda e: e["start"])
-    return gaps(ex, **kw)
+    """Gaps between the start-ordered exons of one transcript (starts must be distinct); "pair" refers to
+    start_ordered(exons)."""
+    return gaps(start_ordered(exons), **kw)
+
+
+def site_pair(intron):
+    """The two-base sites of one intron as (seqid, start, end, strand): [start, start+1] and [end-1, end]."""
+    return [(intron["seqid"], intron["start"], intron["start"] + 1, intron["strand"]),
+            (intron["seqid"], intron["end"] - 1, intron["end"], intron["strand"])]
 
 
 FIVE = "five_prime_cis_splice_site"
@@ -101,7 +113,7 @@ def splice_sites(exons, transcript_strand, numeric_sort=False):
     ins, sup = introns(exons, new_featuretype="intron", numeric_sort=numeric_sort)
     for g in ins:
         out.append({"seqid": g["seqid"], "start": g["start"], "end": g["start"] + 1, "strand": g["strand"],
-                    "featuretype": site_label("left", transcript_strand)})
+                    "featuretype": site_label("left", transcript_strand), "pair": g["pair"]})
         out.append({"seqid": g["seqid"], "start": g["end"] - 1, "end": g["end"], "strand": g["strand"],
-                    "featuretype": site_label("right", transcript_strand)})
+                    "featuretype": site_label("right", transcript_strand), "pair": g["pair"]})
     return out, sup
